@@ -58,7 +58,7 @@ func runClientCase(c ClientCase) vlib.Result {
 		}
 		srvConn.Store(&p)
 		br := bufio.NewReader(p)
-		_ = p.SetReadDeadline(time.Now().Add(5 * time.Second))
+		_ = p.SetReadDeadline(time.Now().Add(20 * time.Second))
 		req, err := http.ReadRequest(br)
 		if err != nil {
 			p.Close()
@@ -68,7 +68,7 @@ func runClientCase(c ClientCase) vlib.Result {
 		for i := 0; i < c.Glued; i++ {
 			wire = append(wire, vlib.WSFrame{Fin: true, Op: vlib.OpBin, Payload: inPayload(i, 16)}.Encode()...)
 		}
-		_ = p.SetWriteDeadline(time.Now().Add(5 * time.Second))
+		_ = p.SetWriteDeadline(time.Now().Add(20 * time.Second))
 		if _, err := p.Write(wire); err != nil {
 			p.Close()
 			return
@@ -157,7 +157,7 @@ func runClientCase(c ClientCase) vlib.Result {
 		add("close")
 		atomic.AddInt32(&inFlight, -1)
 	})
-	d := &websocket.Dialer{Engine: engine, Upgrader: u, DialTimeout: 5 * time.Second}
+	d := &websocket.Dialer{Engine: engine, Upgrader: u, DialTimeout: 20 * time.Second}
 	wc, _, err := d.Dial("ws://"+ln.Addr().String()+"/ws", nil)
 	if err != nil {
 		res.Err = fmt.Errorf("Dialer.Dial to a server that answers 101 failed: %v", err)
@@ -176,7 +176,7 @@ func runClientCase(c ClientCase) vlib.Result {
 	}
 	if c.Ending == "client-close" {
 		// the application waits for everything, then closes
-		vlib.WaitUntil(5*time.Second+time.Duration(c.OpenMs+c.AfterMs)*time.Millisecond, func() bool { return count("msg-end") >= total })
+		vlib.WaitUntil(20*time.Second+time.Duration(c.OpenMs+c.AfterMs)*time.Millisecond, func() bool { return count("msg-end") >= total })
 		_ = wc.Close()
 	}
 	if !vlib.WaitUntil(8*time.Second, func() bool { return count("close") > 0 }) {
